@@ -227,11 +227,12 @@ func contains(xs []string, s string) bool {
 }
 
 type Discharged struct {
-	Obl   *Obligation
-	Res   SolveResult
-	File  string
-	Size  int
-	Model map[string]string
+	Obl     *Obligation
+	Res     SolveResult
+	File    string
+	Size    int
+	Model   map[string]string
+	InstSat string // solver that found a model of the ground-instantiated variant
 }
 
 // dischargeAll solves every obligation of a result in parallel.
@@ -289,10 +290,22 @@ func dischargeAll(results []*Result, outDir string, timeoutS int, workers int) m
 						res.Solver += "+inst"
 					}
 				}
-				if res.Status != "unsat" {
-					res = solveFile(file, timeoutS, nil)
+				instSat := ""
+				if res.Status == "sat" {
+					instSat = res.Solver
 				}
-				d := &Discharged{Obl: j.o, Res: res, File: file, Size: len(text)}
+				if res.Status != "unsat" {
+					t := timeoutS
+					if res.Status == "sat" && t > 10 {
+						// the ground-instantiated query has a model: the full query is rarely unsat
+						t = 10
+					}
+					res = solveFile(file, t, nil)
+				}
+				if os.Getenv("GOVC_VERBOSE") != "" {
+					fmt.Fprintf(os.Stderr, "%-8s %-7s %6.1fs %s\n", res.Status, res.Solver, res.Seconds, j.o.Name)
+				}
+				d := &Discharged{Obl: j.o, Res: res, File: file, Size: len(text), InstSat: instSat}
 				mu.Lock()
 				out[j.o] = d
 				mu.Unlock()
